@@ -56,6 +56,7 @@ NAME_POOLS = [
     ['m1', 'zz', 'aa', 'q9', 'mid'],
 ]
 FAKE_FC = 'VF_FAKE_FC'
+REAL_SLOTS = max(2, (os.cpu_count() or 4) // 2)     # concurrent real-pool runs
 
 _quiet = logging.getLogger('vf.c44.quiet')
 _quiet.addHandler(logging.NullHandler())
@@ -362,10 +363,17 @@ def real_forced(tree, W, trace, assigned_after, expect, tag, timeout=45.0):
     steps = [dict(gate=f'{k}.{s}', confirm=f'did {k}.{s}') for k, s in trace]
     pid, result_path = vsched.fork_controller(ctl, log_fd, steps, timeout)
     os.environ[vsched.GATE_ENV] = ctl
+    import importlib
+    wq = importlib.import_module('loki.jit_build.workqueue')
+    saved_defaults = wq.wait_and_check.__defaults__
+    # wait_and_check gives every compile 60 s ("TODO: make this user configurable"); a gated compile on a busy
+    # machine may legitimately take longer, and the controller has its own time-outs
+    wq.wait_and_check.__defaults__ = (600,) + tuple(saved_defaults[1:])
     try:
         Obj.clear_cache()
         r = run_build(tree, W, real=dict(fc=str(fc)))
     finally:
+        wq.wait_and_check.__defaults__ = saved_defaults
         os.environ.pop(vsched.GATE_ENV, None)
         res = vsched.join_controller(pid, result_path, [log_fd])
     shutil.rmtree(ctl, ignore_errors=True)
@@ -461,8 +469,13 @@ def _unit_real(item):
         s = r['sched']
         if [list(e) for e in s.trace] != [list(e) for e in item['trace']]:
             return dict(uid=item['uid'], bad=f'model replay of {item["trace"]} gave {s.trace}')
-        bad = real_forced(tree, item['W'], [tuple(e) for e in item['trace']], s.assigned_after,
-                          dict(links=r['links'], objects=r['objects']), item['uid'])
+        with vsched.real_slot(item['scratch'], REAL_SLOTS):
+            for attempt in (1, 2):
+                bad = real_forced(tree, item['W'], [tuple(e) for e in item['trace']], s.assigned_after,
+                                  dict(links=r['links'], objects=r['objects']), f'{item["uid"]}_{attempt}',
+                                  timeout=45.0 * attempt)
+                if not bad or 'not realisable' not in bad:
+                    break       # a time-out on an overloaded machine gets one more chance with doubled time-outs
         return dict(uid=item['uid'], bad=bad)
     finally:
         shutil.rmtree(root, ignore_errors=True)
@@ -473,7 +486,8 @@ def _unit_gfortran(item):
     root = Path(item['scratch']) / f'g{item["uid"]}'
     try:
         tree = Tree(make_case(item['uses'], item['W'], None, item['seed']), root).write()
-        return dict(uid=item['uid'], bad=gfortran_build(tree, item['W']))
+        with vsched.real_slot(item['scratch'], REAL_SLOTS):
+            return dict(uid=item['uid'], bad=gfortran_build(tree, item['W']))
     finally:
         shutil.rmtree(root, ignore_errors=True)
 
@@ -541,7 +555,7 @@ def run(ctx):
                                                 f'unreduced exploration finds (or vice versa)')
                 full_runs += stf['schedules']
                 full_cases += 1
-                schedules += stf['schedules']
+                schedules += stf['schedules'] + 1     # + its serial reference build
                 states += stf['states']
                 transitions += stf['transitions']
                 depth = max(depth, stf['max_choice_depth'])
@@ -553,12 +567,13 @@ def run(ctx):
             for W in (2, 3):
                 tr = r[f'traces_{W}'] or []
                 if n <= 3:
-                    picks = tr                               # every distinct event order
+                    # quick: one event order per distinct order of finish events; thorough: every distinct event order
+                    picks = finish_order_classes(tr) if ctx.quick else tr
                 elif ctx.quick:
-                    # one event order per DAG on 4 files: the lexicographically last one, W alternating over the DAGs
-                    picks = [tr[-1]] if W == 2 + (_parity(u['uses'])) else []
+                    picks = []
                 else:
-                    picks = finish_order_classes(tr)          # every order of finish events
+                    # one event order per DAG on 4 files: the lexicographically last one; W by a parity of the edge set
+                    picks = [tr[-1]] if W == 2 + _parity(u['uses']) else []
                 for t in picks:
                     real_items.append(dict(uses=u['uses'], dev=None, seed=ctx.seed, W=W, trace=[list(e) for e in t],
                                            scratch=scratch))
@@ -604,10 +619,12 @@ def run(ctx):
                                    note='main_mode=full (worker events may fire while the main thread could proceed) on all '
                                         f'baseline trees of <= {full_nmax} files; must yield the same set of event orders'),
         conformance=dict(real_pool_schedules=len(real_items), gfortran_builds=len(gf_items),
-                         selection=('every distinct event order for all baseline DAGs on <= 3 files; for the DAGs on 4 files '
-                                    + ('one event order per DAG (the lexicographically last; W = 2 or 3 by a parity of the edge set)' if ctx.quick
-                                       else 'one event order per distinct order of finish events per (DAG, W)')
-                                    + '; gfortran + nm: every baseline DAG on <= ' + ('3' if ctx.quick else '4') + ' files')),
+                         selection=('baseline DAGs on <= 3 files, W in (2,3): '
+                                    + ('one event order per distinct order of finish events' if ctx.quick else
+                                       'every distinct event order; DAGs on 4 files: the lexicographically last event order, '
+                                       'W = 2 or 3 by a parity of the edge set')
+                                    + '; gfortran + nm (serial vs parallel build): every baseline DAG on <= '
+                                    + ('3' if ctx.quick else '4') + ' files')),
         wall=dict(explore=round(t_explore, 1), real_pool=round(t_real, 1), gfortran=round(t_gf, 1)),
         rule='cases = every labelled module-dependency DAG on 1..n files x single deviations; per case the serial build and '
              'every schedule (DFS over all choices of the next start/finish event) for W=2 and W=3; a trace is the sequence '
